@@ -7,7 +7,9 @@ package main
 import (
 	"fmt"
 	"os"
+	"runtime"
 	"sort"
+	"strconv"
 	"strings"
 	"sync"
 	"time"
@@ -529,18 +531,19 @@ type Worker struct {
 }
 
 type Driver struct {
-	cfg     *Config
-	pc      *ProgramCtx
-	mu      sync.Mutex
-	cond    *sync.Cond
-	queue   []workItem
-	active  int
-	stopped bool
-	started int64
-	results []PathResult // samples + all non-done
-	cexs    []*Counterexample
-	total   Stats
-	samples []PathResult
+	memCheck time.Time
+	cfg      *Config
+	pc       *ProgramCtx
+	mu       sync.Mutex
+	cond     *sync.Cond
+	queue    []workItem
+	active   int
+	stopped  bool
+	started  int64
+	results  []PathResult // samples + all non-done
+	cexs     []*Counterexample
+	total    Stats
+	samples  []PathResult
 }
 
 func (d *Driver) pop() (workItem, bool) {
@@ -600,7 +603,31 @@ func (d *Driver) finish(items []workItem, r PathResult) {
 		}
 		d.total.msgs["deadline reached with work left"] += int64(len(d.queue))
 	}
+	// memory guard: a run that outgrows the limit stops expanding and is
+	// reported non-exhaustive, like one that reaches its deadline
+	if now := time.Now(); now.Sub(d.memCheck) > 2*time.Second && !d.stopped && (len(d.queue) > 0 || d.active > 0) {
+		d.memCheck = now
+		var ms runtime.MemStats
+		runtime.ReadMemStats(&ms)
+		if ms.HeapAlloc > memLimitBytes() {
+			d.stopped = true
+			d.total.truncated += int64(len(d.queue))
+			if d.total.msgs == nil {
+				d.total.msgs = map[string]int64{}
+			}
+			d.total.msgs["memory limit reached with work left"] += int64(len(d.queue))
+		}
+	}
 	d.cond.Broadcast()
+}
+
+// memLimitBytes: SYMGO_MEM_GB (default 16) gibibytes of Go heap.
+func memLimitBytes() uint64 {
+	gb := 16
+	if v, err := strconv.Atoi(os.Getenv("SYMGO_MEM_GB")); err == nil && v > 0 {
+		gb = v
+	}
+	return uint64(gb) << 30
 }
 
 func (w *Worker) runPath(d *Driver, it workItem) (items []workItem, r PathResult) {
